@@ -210,6 +210,76 @@ func genDoc(r *rand.Rand) ym {
 	return d
 }
 
+// genExecDoc draws a valid definition that the agent can execute quickly and
+// harmlessly: command steps only (no mail / http / sub-workflow / repeat).
+func genExecDoc(r *rand.Rand) ym {
+	var d ym
+	if r.Intn(3) == 0 {
+		d = append(d, kv("params", pickStr(r, []string{"a b", "x=1", `p="hello world"`, "one"})))
+	}
+	if r.Intn(3) == 0 {
+		d = append(d, kv("env", []any{ym{kv("X", pickStr(r, []string{"plain", "with space", "${HOME}", "1"}))}}))
+	}
+	if r.Intn(4) == 0 {
+		d = append(d, kv("preconditions", []any{ym{kv("condition", pickStr(r, []string{"1", "`echo 1`"})), kv("expected", pickStr(r, []string{"1", "re:^1$", "2"}))}}))
+	}
+	if r.Intn(2) == 0 {
+		h := ym{}
+		for _, t := range []string{"exit", "success", "failure", "cancel"} {
+			if r.Intn(2) == 0 {
+				h = append(h, kv(t, ym{kv("command", pickStr(r, []string{"true", "echo handler", "false"}))}))
+			}
+		}
+		d = append(d, kv("handlerOn", h))
+	}
+	if r.Intn(4) == 0 {
+		d = append(d, kv("maxActiveRuns", 1+r.Intn(2)))
+	}
+	n := 1 + r.Intn(4)
+	var steps []any
+	var names []string
+	for i := 0; i < n; i++ {
+		nm := fmt.Sprintf("s%d", i+1)
+		s := ym{kv("name", nm)}
+		switch r.Intn(6) {
+		case 0:
+			s = append(s, kv("command", []any{"echo", "a", 1, true}))
+		case 1:
+			s = append(s, kv("command", "sh"), kv("script", "echo from script\nexit 0\n"))
+		case 2:
+			s = append(s, kv("command", pickStr(r, []string{"false", "sh -c 'exit 1'", "verif-no-such-binary x"})))
+		default:
+			s = append(s, kv("command", pickStr(r, []string{"true", "echo hello", "echo $1 $X", "echo \"a b\" c"})))
+		}
+		if len(names) > 0 && r.Intn(2) == 0 {
+			s = append(s, kv("depends", []any{names[r.Intn(len(names))]}))
+		}
+		if r.Intn(4) == 0 {
+			s = append(s, kv("continueOn", ym{kv("failure", true), kv("skipped", r.Intn(2) == 0)}))
+		}
+		if r.Intn(5) == 0 {
+			s = append(s, kv("retryPolicy", ym{kv("limit", 1+r.Intn(2)), kv("intervalSec", 0)}))
+		}
+		if r.Intn(5) == 0 {
+			s = append(s, kv("output", "OUT_"+strings.ToUpper(nm)))
+		}
+		if r.Intn(6) == 0 {
+			s = append(s, kv("stdout", "${VERIF_SHARD_SCRATCH}/out-"+nm+".txt"))
+		}
+		if r.Intn(6) == 0 {
+			s = append(s, kv("preconditions", []any{ym{kv("condition", "$VERIF_UNSET_VAR"), kv("expected", pickStr(r, []string{"", "x", "re:["}))}}))
+		}
+		if r.Intn(8) == 0 {
+			s = append(s, kv("executor", ym{kv("type", "command"), kv("config", ym{kv("list", []any{1, ym{kv("k", "v")}}), kv("deep", ym{kv("a", ym{kv("b", 1)})})})}))
+		}
+		steps = append(steps, s)
+		names = append(names, nm)
+	}
+	d = append(d, kv("steps", steps))
+	r.Shuffle(len(d), func(i, j int) { d[i], d[j] = d[j], d[i] })
+	return d
+}
+
 // ---- mutation ------------------------------------------------------------------
 
 var hostileStrings = []string{"", " ", "re:[", "re:(", "re:*", "61 * * * *", "* * *", "not a cron", "SIGFOO", "0", "`", "``", "${", "$(", "$", "y", "n", "~", "null", ".nan", "!!binary abc", "*alias", "&anc x", ": ", "- ", "{", "[", "\t", "a\nb", "\\", "\"", "'", "%", "=", "==", "a=", "=b", "\"unterminated", "0x1F", "1e309", "-", "--", "#", "@every 1m", "CRON_TZ=UTC * * * * *", "üñí€😀", strings.Repeat("A", 70000), strings.Repeat("ab ", 3000)}
